@@ -50,9 +50,25 @@ pub struct ListDesc {
     /// pushes: the element vtable a script makes has no clone function for plain data)
     #[serde(default)]
     pub script_made: Vec<bool>,
+    /// concurrent runs only: (thread, operation index, k) - that operation is single-stepped and
+    /// preempted after exactly k instructions of code under test (sched::fine_window)
+    #[serde(default)]
+    pub fine: Option<(usize, usize, u64)>,
     /// recorded schedule (tid chosen at every decision); present = replay literally
     #[serde(default)]
     pub schedule: Option<Vec<u8>>,
+}
+
+/// For runs that contain compilations (C11, C12): one run in four stalls threads at change
+/// points counted in events other than interning points.
+pub fn pick_strategy_compiling(r: &mut Rng, horizon: u32) -> Strategy {
+    let s = pick_strategy(r, horizon);
+    if r.chance(1, 4) {
+        let depth = 2 + r.below(3) as u8;
+        let horizon = *r.pick(&[150u32, 500, 1500]);
+        return Strategy::PctX { depth, horizon };
+    }
+    s
 }
 
 pub fn pick_strategy(r: &mut Rng, horizon: u32) -> Strategy {
@@ -278,6 +294,10 @@ pub fn generate_c16(run_seed: u64, thorough: bool) -> ListDesc {
                     Op::GetMove { h, i: idx(&mut g) }
                 }
                 0 => Op::Get { h, i: idx(&mut g) },
+                1 if len < 40 && g.r.chance(1, 6) => {
+                    lens[lid] += 5;
+                    Op::PushMany { h, vals: (0..5).map(|_| fresh(&mut g)).collect() }
+                }
                 1 => {
                     lens[lid] += 1;
                     Op::Push { h, v: fresh(&mut g) }
@@ -361,6 +381,20 @@ pub fn generate_c16(run_seed: u64, thorough: bool) -> ListDesc {
     let horizon = (total_ops as u32) * 5 + 4;
     let mut sr = Rng::new(rng::derive(run_seed, &[rng::label("strategy")]));
     let strategy = pick_strategy(&mut sr, horizon);
+    // one run in sixteen: one operation gets an instruction-level preemption (between two plain
+    // instructions of the list code or of generated code, where no hook point exists). Rare on
+    // purpose: a single-stepped run costs twenty ordinary ones on this VM.
+    let mut fr = Rng::new(rng::derive(run_seed, &[rng::label("fine")]));
+    let mut fine = None;
+    if threads.len() > 1 && fr.chance(1, 16) {
+        let cands: Vec<(usize, usize)> = threads.iter().enumerate().flat_map(|(t, p)| (0..p.ops.len()).map(move |i| (t, i))).collect();
+        if !cands.is_empty() {
+            let (t, i) = *fr.pick(&cands);
+            // log-uniform in 1..=4095
+            let bits = fr.below(12);
+            fine = Some((t, i, (1u64 << bits) + fr.below(1u64 << bits)));
+        }
+    }
     ListDesc {
         property: "C16".into(),
         scenario: "list-mt".into(),
@@ -374,6 +408,7 @@ pub fn generate_c16(run_seed: u64, thorough: bool) -> ListDesc {
         faults: vec![],
         by_ref,
         script_made,
+        fine,
         schedule: None,
     }
 }
@@ -423,7 +458,7 @@ pub fn generate_c15(run_seed: u64, thorough: bool, faults: bool) -> ListDesc {
         m.heap.new_list(inner_init[k].clone());
     }
     let script_ok = |op: &Op| -> bool { !matches!(op, Op::IterConsume { .. } | Op::IterWithPush { .. } | Op::InnerPush { .. } | Op::FromVec { .. } | Op::CloneH { .. } | Op::DropH { .. } | Op::ToVec { .. } | Op::Iter { .. } | Op::Debug { .. }) };
-    let rust_ok = |op: &Op| -> bool { !matches!(op, Op::FromVecScript { .. } | Op::ForRebind { .. } | Op::PlusAssign { .. } | Op::GetMove { .. } | Op::TmpGet { .. } | Op::BranchLit { .. } | Op::Lit9 { .. } | Op::Join { .. } | Op::ForCount { .. } | Op::ForSum { .. } | Op::ForPush { .. } | Op::ForFind { .. }) };
+    let rust_ok = |op: &Op| -> bool { !matches!(op, Op::FromVecScript { .. } | Op::LoopLit { .. } | Op::ForRebind { .. } | Op::PlusAssign { .. } | Op::GetMove { .. } | Op::TmpGet { .. } | Op::BranchLit { .. } | Op::Lit9 { .. } | Op::Join { .. } | Op::ForCount { .. } | Op::ForSum { .. } | Op::ForPush { .. } | Op::ForFind { .. }) };
     // "observe, mutate, observe again": after a query, sometimes one of its lists is changed and
     // the very same query repeated - the shape that catches anything remembered between calls
     let mut followups: std::collections::VecDeque<(Op, Origin)> = std::collections::VecDeque::new();
@@ -477,7 +512,7 @@ pub fn generate_c15(run_seed: u64, thorough: bool, faults: bool) -> ListDesc {
                     _ => g.r.below(len + 2),
                 }
             };
-            match g.r.weighted(&[22, 12, 3, 2, 2, 6, 5, 4, 8, 7, 5, 3, 2, 3, 4, 3, 3, 3, 3, 4, 3, 3, 3, 2, 2, 3]) {
+            match g.r.weighted(&[22, 12, 3, 2, 2, 6, 5, 4, 8, 7, 5, 3, 2, 3, 4, 3, 3, 3, 3, 4, 3, 3, 3, 2, 2, 3, 3, 2]) {
                 0 => Op::Push { h, v: fresh(&mut g) },
                 1 => Op::Get { h, i: idx(&mut g) },
                 2 => Op::Len { h },
@@ -519,6 +554,11 @@ pub fn generate_c15(run_seed: u64, thorough: bool, faults: bool) -> ListDesc {
                 20 => Op::TmpGet { vals: (0..2).map(|_| fresh(&mut g)).collect(), i: g.r.below(3) },
                 23 => Op::GetMove { h, i: idx(&mut g) },
                 24 => Op::ForRebind { h },
+                26 => Op::IndexGot { h, i: idx(&mut g) },
+                27 => match elem.literals() {
+                    Some(l) if len <= 30 => Op::LoopLit { h, n: g.r.below(4), lits: l.iter().map(|x| x.1.clone()).collect() },
+                    _ => Op::IndexGot { h, i: idx(&mut g) },
+                },
                 25 => {
                     let b = *g.r.pick(&filled);
                     let tot = len + m.heap.lists[m.slots[b].unwrap()].len() as u64;
@@ -624,6 +664,7 @@ pub fn generate_c15(run_seed: u64, thorough: bool, faults: bool) -> ListDesc {
         faults: fl,
         by_ref: false,
         script_made: vec![],
+        fine: None,
         schedule: None,
     }
 }
@@ -658,6 +699,7 @@ fn lop_of(op: &Op, ids: &[Option<usize>]) -> Option<LOp> {
         Op::Swap { h, i, j } => LOp::Swap { l: id(h)?, i: *i, j: *j },
         Op::Contains { h, v } => LOp::Contains { l: id(h)?, v: v.clone() },
         Op::Index { h, v } => LOp::Index { l: id(h)?, v: v.clone() },
+        Op::PushMany { h, vals } => LOp::PushSeq { l: id(h)?, vals: vals.clone() },
         Op::ToVec { h } => LOp::ReadAll { l: id(h)? },
         Op::Iter { h } => LOp::IterVals { l: id(h)? },
         Op::Concat { a, b, dst: None, .. } => LOp::Concat { a: id(a)?, b: id(b)? },
@@ -707,6 +749,9 @@ pub fn op_label(op: &Op, origin: &Origin) -> String {
         Op::ForPush { .. } => "for-push",
         Op::InnerPush { .. } => "inner-push",
         Op::ForFind { .. } => "for-find",
+        Op::IndexGot { .. } => "index-of-got-element",
+        Op::PushMany { .. } => "five-pushes",
+        Op::LoopLit { .. } => "literals-in-loops",
     };
     format!("{}:{}", if *origin == Origin::Script { "script" } else { "rust" }, name)
 }
@@ -758,6 +803,7 @@ where
         }
     }
     let st0 = alloc_stats();
+    let fine0 = (sched::FINE_FIRED.load(std::sync::atomic::Ordering::SeqCst), sched::FINE_STEPS.load(std::sync::atomic::Ordering::SeqCst));
     // model ids of the shared lists follow those of the inner lists
     let id_base = d.inner_init.len();
     let history: Arc<Mutex<Vec<Event>>> = Arc::new(Mutex::new(Vec::new()));
@@ -792,6 +838,7 @@ where
         let heap_init = heap0.clone();
         let seq_log = seq_log.clone();
         let nslots = plan.slots.len();
+        let fine = if sequential { None } else { d.fine };
         bodies.push(Box::new(move || {
             let mut ids = ids;
             // sequential model, stepped operation by operation (C15)
@@ -810,7 +857,10 @@ where
                     }
                 }
                 let inv = sched::stamp();
-                let obs = ex.exec(op, origin);
+                let obs = match fine {
+                    Some((ft, fi, fk)) if ft == t && fi == k => sched::fine_window(fk, || ex.exec(op, origin)),
+                    _ => ex.exec(op, origin),
+                };
                 let ret = sched::stamp();
                 let _pg = alloc::ModeGuard::new(alloc::MODE_PLAIN);
                 let (fired_c, fired_e) = tracked::disarm();
@@ -918,6 +968,11 @@ where
         }
     }
     c.insert("lin_states".into(), lin_states);
+    if !sequential {
+        c.insert("fine_window_configured".into(), d.fine.is_some() as u64);
+        c.insert("fine_window_preemptions_fired".into(), sched::FINE_FIRED.load(std::sync::atomic::Ordering::SeqCst) - fine0.0);
+        c.insert("fine_window_instructions_stepped".into(), sched::FINE_STEPS.load(std::sync::atomic::Ordering::SeqCst) - fine0.1);
+    }
     c.insert("arena_live_blocks_at_end".into(), ar.live_blocks as u64);
     let st1 = alloc_stats();
     c.insert("realloc_moves".into(), st1.0 - st0.0);
@@ -1071,6 +1126,12 @@ fn check_seq<E: Elem + std::fmt::Debug>(
 /// One-step simplifications of a run description, simplest first.
 pub fn shrink(d: &ListDesc) -> Vec<ListDesc> {
     let mut out = Vec::new();
+    // without the instruction-level window
+    if d.fine.is_some() {
+        let mut c = d.clone();
+        c.fine = None;
+        out.push(c);
+    }
     let sched = d.schedule.clone().unwrap_or_default();
     // drop a whole thread
     if d.threads.len() > 1 {
@@ -1080,6 +1141,11 @@ pub fn shrink(d: &ListDesc) -> Vec<ListDesc> {
             c.faults.retain(|f| match f {
                 Fault::ClonePanic { thread, .. } | Fault::EqPanic { thread, .. } => *thread != t,
             });
+            c.fine = match c.fine {
+                Some((ft, _, _)) if ft == t => None,
+                Some((ft, fi, fk)) if ft > t => Some((ft - 1, fi, fk)),
+                x => x,
+            };
             let s: Vec<u8> = sched.iter().filter(|&&x| x as usize != t).map(|&x| if x as usize > t { x - 1 } else { x }).collect();
             c.schedule = Some(s);
             out.push(c);
@@ -1091,6 +1157,9 @@ pub fn shrink(d: &ListDesc) -> Vec<ListDesc> {
         if n > 3 {
             let mut c = d.clone();
             c.threads[t].ops.truncate(n / 2);
+            if matches!(c.fine, Some((ft, fi, _)) if ft == t && fi >= n / 2) {
+                c.fine = None;
+            }
             c.faults.retain(|f| match f {
                 Fault::ClonePanic { thread, at, .. } | Fault::EqPanic { thread, at, .. } => !(*thread == t && *at >= n / 2),
             });
@@ -1099,6 +1168,11 @@ pub fn shrink(d: &ListDesc) -> Vec<ListDesc> {
         for k in (0..n).rev() {
             let mut c = d.clone();
             c.threads[t].ops.remove(k);
+            c.fine = match c.fine {
+                Some((ft, fi, _)) if ft == t && fi == k => None,
+                Some((ft, fi, fk)) if ft == t && fi > k => Some((ft, fi - 1, fk)),
+                x => x,
+            };
             let mut ok = true;
             for f in c.faults.iter_mut() {
                 match f {
@@ -1135,7 +1209,7 @@ pub fn shrink(d: &ListDesc) -> Vec<ListDesc> {
     for t in 0..d.threads.len() {
         for k in 0..d.threads[t].ops.len() {
             let (op, origin) = &d.threads[t].ops[k];
-            if *origin == Origin::Script && !matches!(op, Op::Join { .. } | Op::ForCount { .. } | Op::ForSum { .. } | Op::ForPush { .. } | Op::ForFind { .. } | Op::Concat { plus: true, .. } | Op::Eq { ne: true, .. } | Op::Lit3 { .. } | Op::Lit9 { .. } | Op::BranchLit { .. } | Op::TmpGet { .. } | Op::GetMove { .. } | Op::ForRebind { .. } | Op::PlusAssign { .. } | Op::FromVecScript { .. }) {
+            if *origin == Origin::Script && !matches!(op, Op::Join { .. } | Op::ForCount { .. } | Op::ForSum { .. } | Op::ForPush { .. } | Op::ForFind { .. } | Op::Concat { plus: true, .. } | Op::Eq { ne: true, .. } | Op::Lit3 { .. } | Op::Lit9 { .. } | Op::BranchLit { .. } | Op::TmpGet { .. } | Op::GetMove { .. } | Op::ForRebind { .. } | Op::PlusAssign { .. } | Op::FromVecScript { .. } | Op::LoopLit { .. }) {
                 let mut c = d.clone();
                 c.threads[t].ops[k].1 = Origin::Rust;
                 out.push(c);
